@@ -12,7 +12,7 @@
    in the list of s, no other writer of the set (t, b), a guard in the list of t, f <> isSystem, unique
    store names, parents are root stores). *)
 From Coq Require Import List NArith Bool.
-From Storage Require Import Base.Bytes Store.Model Store.FrameProofs Store.TxProofs Store.FkProofs Store.FkDelete Store.FkWf.
+From Storage Require Import Base.Bytes Store.Model Store.FrameProofs Store.TxProofs Store.FkProofs Store.FkDelete Store.FkWf Store.FkChildGuard Store.FkChildCascade.
 Import ListNotations.
 
 (* After any history of committed / rolled-back transactions (creates, full and field-restricted
@@ -124,3 +124,60 @@ Theorem cascade_predicate_is_field_equality : forall sch rs f i st x,
   casc_matches sch rs f i st x = true <-> (present sch st rs x = true /\ get_field sch st rs x f = FStr i).
 Proof. exact cascade_predicate_is_field_equality_wf. Qed.
 Print Assumptions cascade_predicate_is_field_equality.
+
+(* ---- edges that end at a CHILD store: the delete guard lives in the constraint list of the child store ---- *)
+
+(* Restrict through a child store.  In ANY state, for every fuel: if a restricting guard k - [CFkRestrict b] whose
+   back-reference set lists another entity, or [CFkCascade rs f CascNone] with an entity of rs whose field f names x -
+   is in the constraint list of the child store cd of the family of s0, x is loadable through cd (a plain child store:
+   x has data in it; an extended one: x exists), and no cascading delete runs before the guard (root list, lists of the
+   child stores registered before cd, the part of cd's list before k), then deleting x through the root store or through
+   any child store is refused.  ([guard_fires] is the condition under which the hook of k itself answers ReferenceExists;
+   an earlier hook may fail first with its own error.) *)
+Theorem delete_child_guard_refused : forall sch oc n st evs s0 x cd before after pre post k,
+  wf_stores_b sch = true ->
+  let r0 := root_of sch s0 in
+  children_of sch r0 = before ++ cd :: after ->
+  cons_of sch (sd_name cd) = pre ++ k :: post ->
+  quiet (cons_of sch r0) = true ->
+  (forall d, In d before -> quiet (cons_of sch (sd_name d)) = true) ->
+  quiet pre = true ->
+  loadable sch st (sd_name cd) x = true ->
+  guard_fires sch st (sd_name cd) x k ->
+  exists e, delete_by_id sch oc (S n) (st, evs) s0 x = Err e.
+Proof. exact delete_child_guard_refused_lemma. Qed.
+Print Assumptions delete_child_guard_refused.
+
+(* ... and the enclosing transaction ends rolled back: state unchanged, no event *)
+Theorem delete_child_guard_tx_unchanged : forall sch n st (tr : tx) ops1 ops2 s0 x cd before after pre post k st1 evs1,
+  wf_stores_b sch = true ->
+  tx_ops tr = ops1 ++ ODelete s0 x :: ops2 ->
+  snd (run_ops sch (S n) (mkOctx (tx_sys tr) (tx_vetoes tr)) (st, []) ops1) = Ok (st1, evs1) ->
+  children_of sch (root_of sch s0) = before ++ cd :: after ->
+  cons_of sch (sd_name cd) = pre ++ k :: post ->
+  quiet (cons_of sch (root_of sch s0)) = true ->
+  (forall d, In d before -> quiet (cons_of sch (sd_name d)) = true) ->
+  quiet pre = true ->
+  loadable sch st1 (sd_name cd) x = true ->
+  guard_fires sch st1 (sd_name cd) x k ->
+  exists rs, run_tx sch (S n) st tr = (rs, false, st, []).
+Proof. exact delete_child_guard_tx_unchanged_lemma. Qed.
+Print Assumptions delete_child_guard_tx_unchanged.
+
+(* Cascade, without the restriction of [delete_cascade_exact] to cascading deletes on root stores: in ANY state, for
+   EVERY fuel, for every schema with unique store names whose parents are root stores, a delete that succeeds removed
+   exactly the nodes reachable from the entity through [CFkCascade rs f CascDelete] constraints in the lists of the stores
+   that RUN for a node ([runs]: its root store, and the child stores through which it is loadable), and nothing else. *)
+Theorem delete_cascade_exact_any : forall sch oc fuel st evs s0 x st' evs',
+  wf_stores_b sch = true ->
+  delete_by_id sch oc fuel (st, evs) s0 x = Ok (st', evs') ->
+  ents_shrink st st' /\
+  forall r y, (get_ent st r y <> None /\ get_ent st' r y = None) <-> reachc sch st (root_of sch s0, x) (r, y).
+Proof. exact delete_cascade_exact_any_wf. Qed.
+Print Assumptions delete_cascade_exact_any.
+
+(* where [delete_cascade_exact] applies the two notions of reachability coincide *)
+Theorem reachc_iff_reach : forall sch st a n,
+  wf_casc_b sch = true -> (reachc sch st a n <-> reach sch st a n).
+Proof. exact reachc_iff_reach_wf. Qed.
+Print Assumptions reachc_iff_reach.
